@@ -104,6 +104,8 @@ type chaosOpt struct {
 	PaceMs        int                `json:"pace_ms"`
 	SlowPrepareMs int                `json:"slow_prepare_ms"`
 	Snappy        bool               `json:"entry_compression_snappy"`
+	SendQ         uint64             `json:"max_send_queue_bytes"`
+	RecvQ         uint64             `json:"max_receive_queue_bytes"`
 	SnapSnappy    int                `json:"snapshot_compression_snappy"` // 0 none, 1 every replica, 2 odd replica ids, 3 even replica ids
 	CmdPad        int                `json:"max_command_padding"`
 	Wire          bool               `json:"real_tcp_transport_behind_corrupting_proxies"`
@@ -168,6 +170,17 @@ func chaosMode(r *common.Run, sk *sink) {
 		o.Snappy = rng.Intn(3) == 0
 		// own stream: the other options of a case keep their values
 		o.SnapSnappy = r.Rand("snapcomp", c).Intn(4)
+		// a third of the cases: small byte limits on the send queues of the transport and on the
+		// receive queues of the replicas, so that dragonboat itself drops messages under load
+		if q := r.Rand("queues", c); q.Intn(3) == 0 {
+			o.SendQ = uint64(2048 << uint(q.Intn(6)))
+			o.RecvQ = uint64(2048 << uint(q.Intn(6)))
+			if q.Intn(3) == 0 {
+				o.SendQ = 0
+			} else if q.Intn(2) == 0 {
+				o.RecvQ = 0
+			}
+		}
 		if rng.Intn(3) == 0 {
 			o.CmdPad = 40 + rng.Intn(400)
 		}
@@ -234,6 +247,7 @@ func runChaos(r *common.Run, sk *sink, o chaosOpt) {
 	c := cluster.NewCluster(cluster.Options{
 		Hosts: nHosts, Seed: o.Seed, RTTMs: 10, Store: store, NotifyCommit: o.NotifyCommit,
 		SaveDelay: time.Duration(o.SaveDelayMs) * time.Millisecond, Wire: o.Wire, WireDir: wireDir,
+		MaxSendQueueSize: o.SendQ, MaxReceiveQueueSize: o.RecvQ,
 		SMOpt: func(uint64, uint64) cluster.SMOptions {
 			return cluster.SMOptions{Kind: kind, RecordApply: true, RaceCanary: true, StrictCmd: true,
 				SlowPrepare: time.Duration(o.SlowPrepareMs) * time.Millisecond, Ballast: o.Ballast, ExtDir: extDir}
@@ -292,6 +306,9 @@ func runChaos(r *common.Run, sk *sink, o chaosOpt) {
 			c.StopAll()
 			return
 		}
+	}
+	if o.SendQ != 0 || o.RecvQ != 0 {
+		sk.Count("cases_with_byte_limited_message_queues", 1)
 	}
 	if o.SnapSnappy != 0 {
 		sk.Count([]string{"", "cases_with_compressed_snapshot_images", "cases_with_mixed_snapshot_compression", "cases_with_mixed_snapshot_compression"}[o.SnapSnappy], 1)
